@@ -65,6 +65,8 @@ def pair_st(draw, tier):
     bottom = draw(G.mutate_ace(top, platform, kmax=4, groups=False, empty_sets=False, established=False))
     if draw(st.integers(0, 9)) == 0:
         top, bottom = bottom, top
+    if draw(st.sampled_from(range(6))) == 0:
+        top, bottom = draw(G.flag_focus(top, bottom, established=False))
     # usual Cisco order 'log <other options>': the log keyword in front of the flag tokens
     for rec in (top, bottom):
         if rec.get("flags") and draw(st.sampled_from([True, False, False])):
